@@ -22,7 +22,8 @@ def expr(it):
     if f == 'bare':
         return t
     if f == 'pos':
-        return '%%position(%s, %s)' % (t, hex(n))
+        # (the big base is written as an expression whose operator binds looser than +: same value)
+        return '%%position(%s, %s)' % (t, '0x1000 << 16' if n == 0x10000000 else hex(n))
     if f in ('off', 'offk'):
         return '%%offset(%s)' % t
     if f == 'hipos':
